@@ -257,6 +257,11 @@ pub fn np(args: &[&str]) -> Option<Vec<String>> {
 /// `scale entry unit n0 max` : inputs `unit` repeated n0, 2 n0, 4 n0 … octets up to `max`; stops once a run takes over 1.5 s
 pub fn scale(args: &[&str]) -> Option<Vec<String>> {
     let [entry, unit, n0, max] = args else { return None };
+    // `entry^<hex>`: every input of the series starts with these octets (a non-ASCII word before a long run of blanks, say)
+    let (entry, prefix) = match entry.split_once('^') {
+        Some((e, p)) => (e, unhex(p)?),
+        None => (*entry, Vec::new()),
+    };
     let unit = unhex(unit)?;
     if unit.is_empty() {
         return None;
@@ -266,7 +271,7 @@ pub fn scale(args: &[&str]) -> Option<Vec<String>> {
     std::panic::set_hook(Box::new(|_| {}));
     let mut out = vec![];
     while n <= max {
-        let input: Vec<u8> = unit.iter().cycle().take(n).copied().collect();
+        let input: Vec<u8> = prefix.iter().copied().chain(unit.iter().cycle().take(n).copied()).collect();
         // the fastest of up to three runs
         let mut best: Option<Duration> = None;
         let mut res = String::new();
